@@ -9,6 +9,9 @@ Three parts, each GEN -> RUN -> JUDGE (DESIGN.md section 6, C06):
  (b) framing  specs/balance/IndexFraming.tla     (index shapes x every truncation point)
               harness/C06_arvados, C06_keepclient, C06_keepstore   the three index readers/writer
               specs/balance/IndexFramingTrace.tla            (IndexFramingContract)
+ (c') sweepseq specs/balance/SweepSeq.tla        (2-3 consecutive runs, service set changing, stale trash lists)
+              harness/C06_keepbalance/sweepseq_driver_test.go   real Balancer.Run x n, RunOptions threaded through
+              specs/balance/SweepSeqTrace.tla                    (SweepSeqContract)
  (d) compose  specs/balance/GCCompose.tla        (TLC only: keep-balance's trash decision composed with
               keepstore's TrashItem / Trash re-checks and concurrent client writes; the assumption-dropping
               configurations must each be refuted)
@@ -25,7 +28,7 @@ sys.path.insert(0, os.path.join(os.path.dirname(os.path.abspath(__file__)), ".."
 import vlib  # noqa
 
 SD = "specs/balance"
-PARTS = [p for p in os.environ.get("VERIF_C06_PARTS", "scan,framing,sweep,compose").split(",") if p]
+PARTS = [p for p in os.environ.get("VERIF_C06_PARTS", "scan,framing,sweep,sweepseq,compose").split(",") if p]
 
 
 def judge_batched(ctx, module, cfg, events, by_id, batch=1000, max_rejects=5, timeout=1700):
@@ -267,6 +270,69 @@ def part_sweep(ctx, rnd):
     return nontrivial
 
 
+def part_sweepseq(ctx, rnd):
+    pkg = "services/keep-balance"
+    ctx.tlc(SD, "SweepSeq", "MC_SweepSeq_big.cfg" if ctx.thorough else "MC_SweepSeq.cfg", timeout=1700,
+            label="sweepseq: 3 runs, changing service set, stale lists, dry runs, one failing request per run; "
+                  "no stale non-empty list at index time, inductive invariant of SafeRendezvousState")
+    scns, r = ctx.gen(SD, "SweepSeq", "Gen_SweepSeq_big.cfg" if ctx.thorough else "Gen_SweepSeq.cfg", timeout=1700,
+                      label="sweepseq: scenario emission (sequence of run descriptors)")
+    ctx.extra["sweepseq_scenarios_emitted"] = len(scns)
+    if not scns:
+        raise vlib.InfraError("sweepseq: no scenario emitted")
+    cap = 6000 if ctx.thorough else 1600
+    if len(scns) > cap:
+        scns.sort(key=lambda s: s["id"])
+        rnd.shuffle(scns)
+        scns = scns[:cap]
+    variants = ["s500", "conn"]
+    for s in scns:
+        s["fvar"] = variants[(s["id"] + ctx.seed) % 2]
+        s["pulls"] = (s["id"] // 2 + ctx.seed) % 2 == 0
+    # beyond the model's bounds: up to 5 servers, 2-5 runs
+    base = 4 * 10 ** 7
+    for i in range(600 if ctx.thorough else 150):
+        nsrv = rnd.randint(2, 5)
+        runs = []
+        S = sorted(rnd.sample(range(1, nsrv + 1), rnd.randint(1, nsrv)))
+        for _ in range(rnd.randint(2, 5)):
+            if rnd.random() < 0.6:
+                S = sorted(rnd.sample(range(1, nsrv + 1), rnd.randint(1, nsrv)))
+            c = rnd.random() < 0.7
+            fk, ft = "none", 0
+            x = rnd.random()
+            if x < 0.15:
+                fk, ft = "scan", rnd.choice([0] + S)
+            elif c and x < 0.35:
+                fk, ft = "clear", rnd.choice(S)
+            elif c and x < 0.5:
+                fk, ft = "trash", rnd.choice(S)
+            runs.append({"S": S, "c": c, "fk": fk, "ft": ft})
+        scns.append({"id": base + i, "stale": sorted(rnd.sample(range(1, nsrv + 1), rnd.randint(0, nsrv))),
+                     "runs": runs, "fvar": rnd.choice(variants), "pulls": rnd.random() < 0.5})
+    by_id = {s["id"]: s for s in scns}
+    ov = ctx.harness_overlay(pkg, "harness/C06_keepbalance")
+    events, out = ctx.go_run_driver(pkg, ov, "TestVerifC06SweepSeq$", scns, timeout=1500)
+    traces = vlib.split_traces(events)
+    nontrivial = set()
+    nclear_unreached = 0
+    for t in traces:
+        runs = []
+        for e in t:
+            if e["ev"] == "runstart":
+                runs.append([tuple(e["servers"]), e["commit"], e["fk"], e["ft"], 0, False])
+            elif e["ev"] == "put" and e["what"] == "trash" and runs:
+                runs[-1][4] += 1
+                runs[-1][5] = runs[-1][5] or e["failed"]
+        if len(runs) >= 2 and any(r[0] != runs[0][0] for r in runs):
+            nontrivial.add((tuple(t[0]["stale"]), tuple(tuple(r[:5]) for r in runs)))
+    judge_batched(ctx, "SweepSeqTrace", "Judge_SweepSeq.cfg", events, by_id, batch=3000)
+    ctx.evaluations += len(traces)
+    ctx.extra["sweepseq_traces"] = len(traces)
+    ctx.samples += [{"scenario": by_id.get(t[0].get("scn")), "trace": t[:60]} for t in traces[700:701]]
+    return nontrivial
+
+
 def part_compose(ctx):
     """Design-level only (no binding): the two halves of garbage collection composed."""
     ctx.tlc(SD, "GCCompose", "MC_GCCompose_big.cfg" if ctx.thorough else "MC_GCCompose.cfg", timeout=1200,
@@ -292,6 +358,8 @@ def run(ctx):
         nontrivial += len(part_framing(ctx, rnd))
     if "sweep" in PARTS:
         nontrivial += len(part_sweep(ctx, rnd))
+    if "sweepseq" in PARTS:
+        nontrivial += len(part_sweepseq(ctx, rnd))
     if "compose" in PARTS:
         part_compose(ctx)
     ctx.extra["distinct_nontrivial"] = nontrivial
@@ -303,7 +371,10 @@ def run(ctx):
                 "non-empty prefix / a failing volume; distinct by (reader, shape, cut) or (volumes, failure, route). "
                 "sweep: every (cluster configuration, failing request) of Sweep.tla plus random larger clusters; "
                 "non-trivial = a request was made to fail; distinct by (configuration, failing request, failure kind). "
-                "distinct_nontrivial is the sum of the three counts")
+                "sweepseq: every sequence of run descriptors (service set, CommitTrash, failing request) of SweepSeq.tla "
+                "(sampled) plus random sequences of 2-5 runs over up to 5 servers; non-trivial = the service set "
+                "changes within the sequence; distinct by (stale servers, run descriptors, trash PUTs per run). "
+                "distinct_nontrivial is the sum of the four counts")
     ctx.trusted_base = ["fake collections list API (its answers are themselves checked by TLC against the contract's "
                         "definition of a faithful list API)",
                         "rank <-> timestamp/uuid concretisation tables in the drivers",
